@@ -354,13 +354,80 @@ def generate(module):
     return text
 
 
+def extract_diff_tables():
+    """the hard-coded central-difference tables of utils/derivatives.py::derivative:
+    every `weights = np.array( [...] ) [/ d]` under `if n == N:` / `[el]if order == M:`"""
+    from fractions import Fraction
+    fn = get_fn('utils/derivatives.py', 'derivative')
+    out = []
+
+    def const(node):
+        v = eval(compile(ast.Expression(node), '<c>', 'eval'), {'__builtins__': {}}, {})
+        return Fraction(str(v)) if isinstance(v, float) else Fraction(v)
+
+    def walk_order(node, n):
+        while isinstance(node, ast.If):
+            t = node.test
+            if not (isinstance(t, ast.Compare) and isinstance(t.left, ast.Name) and t.left.id == 'order'
+                    and isinstance(t.ops[0], ast.Eq)):
+                raise Unsupported('unexpected test in weight table: ' + ast.unparse(t))
+            m = int(const(t.comparators[0]))
+            if len(node.body) != 1 or not isinstance(node.body[0], ast.Assign):
+                raise Unsupported('unexpected body in weight table')
+            v = node.body[0].value
+            den = Fraction(1)
+            if isinstance(v, ast.BinOp) and isinstance(v.op, ast.Div):
+                den = const(v.right)
+                v = v.left
+            if not (isinstance(v, ast.Call) and ast.unparse(v.func) == 'np.array' and isinstance(v.args[0], ast.List)):
+                raise Unsupported('weights not a literal array: ' + ast.unparse(node.body[0]))
+            nums = [const(e) for e in v.args[0].elts]
+            out.append((n, m, nums, den))
+            node = node.orelse[0] if len(node.orelse) == 1 else None
+
+    for st in fn.body:
+        node = st
+        while isinstance(node, ast.If):
+            t = node.test
+            if isinstance(t, ast.Compare) and isinstance(t.left, ast.Name) and t.left.id == 'n' and isinstance(t.ops[0], ast.Eq):
+                walk_order(node.body[0] if node.body and isinstance(node.body[0], ast.If) else None, int(const(t.comparators[0])))
+                node = node.orelse[0] if len(node.orelse) == 1 and isinstance(node.orelse[0], ast.If) else None
+            else:
+                break
+    if not out:
+        raise Unsupported('no weight table found in derivative()')
+    return out
+
+
+def generate_diff_tables():
+    from fractions import Fraction
+    from math import lcm
+    rows = []
+    for n, m, nums, den in extract_diff_tables():
+        # integer numerators over one integer denominator
+        d = lcm(*[x.denominator for x in nums], 1)
+        D = den * d
+        if D.denominator != 1:
+            k = D.denominator
+            nums = [x * k for x in nums]
+            D = D * k
+        ints = [x * d for x in nums]
+        if any(x.denominator != 1 for x in ints):
+            raise Unsupported('non-rational weight')
+        rows.append(f'  ({n}, {m}, [' + ', '.join(str(int(x)) for x in ints) + f'], {int(D)})')
+    text = ('/-\nGENERATED by harness/translate.py from src/ffpack/utils/derivatives.py (function `derivative`) — do not edit.\n'
+            'Each entry: (derivative order n, number of points m, integer numerators, common denominator).\n-/\n'
+            'namespace FF.Gen\n\ndef diffTables : List (Nat × Nat × List Int × Int) := [\n' + ',\n'.join(rows) + ']\n\nend FF.Gen\n')
+    return text
+
+
 def write_all(modules=None):
     """regenerate; returns {module: (changed, error)}"""
     out = {}
-    for m in (modules or SPEC):
+    for m in (modules or list(SPEC) + ['DiffTables']):
         path = os.path.join(core.LEAN, 'FFVerif', 'Gen', m + '.lean')
         try:
-            text = generate(m)
+            text = generate_diff_tables() if m == 'DiffTables' else generate(m)
         except (Unsupported, SyntaxError, KeyError, AttributeError, IndexError, TypeError) as e:
             out[m] = (False, f'{type(e).__name__}: {e}')
             continue
